@@ -843,6 +843,8 @@ def normalise(tree):
     pinned = pinned_functions()
     if pinned is None:
         return tree, {"inlined": [], "kept": [], "note": "no pinned function table: helper inlining disabled"}
+    from .localnames import restore as restore_local_names
+    renamed = restore_local_names(tree)
     n1 = unroll_constant_loops(tree)
     inl = Inliner(tree, pinned)
     inl.run()
@@ -855,7 +857,8 @@ def normalise(tree):
     aliases = propagate_new_aliases(tree, pinned_table())
     comps = append_loops_to_comprehensions(tree)
     temps = inline_new_temporaries(tree, pinned_table())
-    return tree, {"inlined": inl.inlined, "kept": inl.kept, "removed": getattr(inl, "removed", []), "unrolled": n1 + n2, "getattr_folded": af.count, "append_loops": comps, "aliases_propagated": aliases, "temporaries_inlined": temps}
+    return tree, {"inlined": inl.inlined, "kept": inl.kept, "removed": getattr(inl, "removed", []), "unrolled": n1 + n2, "getattr_folded": af.count, "append_loops": comps, "aliases_propagated": aliases, "temporaries_inlined": temps,
+                  "locals_renamed_back": ["%s: %s -> %s (%.2f)" % r for r in renamed]}
 
 
 def unroll(tree, model_tables):
